@@ -34,6 +34,15 @@ Print Assumptions C13_addrmaps_no_panic.
 Theorem C13_envelope_no_panic_chunked : forall rs cs, run_chunked (dec_envelope rs) cs <> Panic.
 Proof. intros rs. apply safe_no_panic_chunked. apply safe_dec_envelope. Qed.
 Print Assumptions C13_envelope_no_panic_chunked.
+Theorem C13_values_no_panic_chunked : forall rs cs,
+  run_chunked (dec_msg rs) cs <> Panic /\ run_chunked (dec_state rs) cs <> Panic
+  /\ run_chunked dec_alloc cs <> Panic /\ run_chunked (dec_params rs) cs <> Panic
+  /\ run_chunked (dec_tx rs) cs <> Panic.
+Proof.
+  intros rs cs. repeat split; apply safe_no_panic_chunked;
+    [apply safe_dec_msg|apply safe_dec_state|apply safe_dec_alloc|apply safe_dec_params|apply safe_dec_tx].
+Qed.
+Print Assumptions C13_values_no_panic_chunked.
 
 (* limits: whatever is accepted is a validated allocation (which includes the limits) ... *)
 Theorem C13_accepted_alloc_within_limits : forall bs a r, run_flat dec_alloc bs = Ok (a, r) ->
